@@ -52,11 +52,16 @@ type canonPlan struct {
 	notes []string
 }
 
-func planCanon(p *Prog) canonPlan {
+// planCanon plans the canonicalisation; stdlib and methods select the two rewrites (so that one can be retried alone
+// when the combination does not type-check).
+func planCanon(p *Prog, stdlib, methods bool) canonPlan {
 	in := &inliner{p: p, files: map[string]*fileEdits{}, elig: map[*Fn]bool{}}
 	plan := canonPlan{roundPlan: roundPlan{files: in.files}}
 	ctr := 0
 	for _, pkg := range p.Pkgs {
+		if !stdlib {
+			break
+		}
 		info := pkg.TypesInfo
 		for _, file := range pkg.Syntax {
 			fname := p.Fset.Position(file.Pos()).Filename
@@ -402,7 +407,9 @@ func planCanon(p *Prog) canonPlan {
 			}
 		}
 	}
-	planMethodRestore(p, in, &plan)
+	if methods {
+		planMethodRestore(p, in, &plan)
+	}
 	return plan
 }
 
@@ -552,10 +559,142 @@ func planMethodRestore(p *Prog, in *inliner, plan *canonPlan) {
 				add(c.Pos(), a0.Pos(), next, "")
 			}
 		} else {
-			// the receiver was dropped (unused): give the method an anonymous receiver; every call site must lie in a
-			// method of the same type with a named receiver
+			// the receiver was dropped (unused) or replaced by the fields the function reads: give the method a
+			// receiver again; every call site must lie in a method of the same type with a named receiver. A
+			// parameter for which every call passes the same field of that receiver becomes a local read from the
+			// receiver (`func f(ips *A, k K)` called as f(c.ips, k)  ->  `func (r *T) f(k K) { ips := r.ips; ...`).
 			ptr := "*"
-			add(f.Decl.Pos(), f.Decl.Name.Pos(), f.Decl.Name.Pos(), "(_ "+ptr+recv+") ")
+			type fparam struct {
+				fld   *ast.Field
+				idx   int
+				field string
+			}
+			var fps []fparam
+			if params != nil {
+				k := 0
+				for _, fld := range params.List {
+					if len(fld.Names) != 1 {
+						k += len(fld.Names)
+						if len(fld.Names) == 0 {
+							k++
+						}
+						continue
+					}
+					fieldName := ""
+					same := len(calls) > 0
+					for _, c := range calls {
+						if k >= len(c.Args) || c.Ellipsis.IsValid() {
+							same = false
+							break
+						}
+						sel, isSel := ast.Unparen(c.Args[k]).(*ast.SelectorExpr)
+						if !isSel {
+							same = false
+							break
+						}
+						x, isId := sel.X.(*ast.Ident)
+						seln := info.Selections[sel]
+						if !isId || seln == nil || seln.Kind() != types.FieldVal || !isRecvType(seln.Recv()) {
+							same = false
+							break
+						}
+						// x is the receiver of the enclosing method
+						var owner *ast.FuncDecl
+						for m := ast.Node(c); m != nil; m = p.parents[m] {
+							if fd, isFd := m.(*ast.FuncDecl); isFd {
+								owner = fd
+								break
+							}
+						}
+						if owner == nil || owner.Recv == nil || len(owner.Recv.List) != 1 || len(owner.Recv.List[0].Names) != 1 || info.Uses[x] != info.Defs[owner.Recv.List[0].Names[0]] {
+							same = false
+							break
+						}
+						if fieldName == "" {
+							fieldName = sel.Sel.Name
+						} else if fieldName != sel.Sel.Name {
+							same = false
+							break
+						}
+					}
+					if same && fieldName != "" && fld.Names[0].Name != "_" {
+						// the parameter must not be assigned in the body (it would have been a copy)
+						pobj := info.Defs[fld.Names[0]]
+						assigned := false
+						ast.Inspect(f.Decl.Body, func(n ast.Node) bool {
+							switch st := n.(type) {
+							case *ast.AssignStmt:
+								for _, l := range st.Lhs {
+									if id, isId := ast.Unparen(l).(*ast.Ident); isId && info.Uses[id] == pobj {
+										assigned = true
+									}
+								}
+							case *ast.UnaryExpr:
+								if id, isId := ast.Unparen(st.X).(*ast.Ident); isId && st.Op == token.AND && info.Uses[id] == pobj {
+									assigned = true
+								}
+							}
+							return true
+						})
+						if !assigned {
+							fps = append(fps, fparam{fld, k, fieldName})
+						}
+					}
+					k++
+				}
+			}
+			rname := "_"
+			if len(fps) > 0 {
+				rname = "mlbRecv"
+			}
+			add(f.Decl.Pos(), f.Decl.Name.Pos(), f.Decl.Name.Pos(), "("+rname+" "+ptr+recv+") ")
+			// remove the field parameters from the signature and add the locals
+			removeListed := func(pos token.Pos, i, n int, start func(int) token.Pos, end func(int) token.Pos, closing token.Pos) {
+				switch {
+				case i+1 < n:
+					add(pos, start(i), start(i+1), "")
+				case i > 0:
+					add(pos, end(i-1), end(i), "")
+				default:
+					add(pos, start(i), closing, "")
+				}
+			}
+			removed := map[int]bool{}
+			if len(fps) > 0 {
+				// positions in the field list
+				pre := ""
+				for _, fp := range fps {
+					li := -1
+					for j, fld := range params.List {
+						if fld == fp.fld {
+							li = j
+						}
+					}
+					// adjacent removals would overlap: remove at most every other neighbour safely by merging text
+					if removed[li-1] || removed[li+1] {
+						continue
+					}
+					removed[li] = true
+					removeListed(f.Decl.Pos(), li, len(params.List), func(j int) token.Pos { return params.List[j].Pos() }, func(j int) token.Pos { return params.List[j].End() }, params.Closing)
+					pre += "\nvar _ " + in.text(fp.fld.Type.Pos(), fp.fld.Type.End()) + "\n" + fp.fld.Names[0].Name + " := " + rname + "." + fp.field + "\n_ = " + fp.fld.Names[0].Name
+				}
+				add(f.Decl.Pos(), f.Decl.Body.Lbrace+1, f.Decl.Body.Lbrace+1, pre+"\n")
+			}
+			for _, c := range calls {
+				for _, fp := range fps {
+					li := -1
+					for j, fld := range params.List {
+						if fld == fp.fld {
+							li = j
+						}
+					}
+					if !removed[li] {
+						continue
+					}
+					k := fp.idx
+					removeListed(c.Pos(), k, len(c.Args), func(j int) token.Pos { return c.Args[j].Pos() }, func(j int) token.Pos { return c.Args[j].End() }, c.Rparen)
+				}
+			}
 			for _, c := range calls {
 				var owner *ast.FuncDecl
 				for m := ast.Node(c); m != nil; m = p.parents[m] {
